@@ -60,6 +60,42 @@ def power(env, n, kind, iters, hermitian=False):
         env.holds('vector-only call returns an n x 1 array', tuple(v1.shape) == (n, 1))
 
 
+def scale_invariance(env, n, kind, iters, hermitian=False):
+    """power_iteration(c A), c > 0, from the SAME start vector returns the same vector and c times the estimate, on every exit path:
+    all stopping tests of the iteration act on scale-free quantities (differences of unit vectors) or on exact breakdown, so whether
+    'enough iterations' are performed cannot depend on the magnitude of A.  (Seeded change C19-e compared ||A v|| with the
+    convergence tolerance: small-norm matrices then stop at iteration 0.)"""
+    U = env.R.utils
+    A = env.qherm('a', n, kind) if hermitian else env.qarr('a', (n, n), kind)
+    c = env.real('c')
+    env.assume(c > 0, 'scale factor c > 0')
+    An = cm.as_nested(env, A)
+    cA = cm.qmat_from_nested(env, [[[c * x for x in e] for e in r] for r in An])
+
+    def run(M):
+        if env.symbolic:
+            from symex import shim
+            shim.NP._ndraw = 0          # both calls see the same draws (same names -> same symbolic start vector)
+            _hook_unit_second_factor(env)
+        else:
+            import numpy as np
+            np.random.seed(5)
+        try:
+            return U.power_iteration(M, max_iterations=iters, return_eigenvalue=True)
+        finally:
+            if env.symbolic:
+                from symex import shim
+                shim.NP._draw_hook = None
+    try:
+        v1, l1 = run(A)
+        v2, l2 = run(env.twist(cA))
+    except ValueError as e:
+        env.holds('the only ValueError is the zero start vector', 'zero norm' in str(e))
+        return
+    env.eq('same vector for A and c A (c > 0) from the same start', cm.as_nested(env, v2), cm.as_nested(env, v1), tol=1e-9)
+    env.eq('estimate(c A) = c estimate(A)', [l2], [c * l1], tol=1e-9)
+
+
 def nonherm_hermitian_path(env, n, kind, fmt):
     """Hermitian input takes the quaternion fast path: real eigenvalue in both formats, unit vector"""
     U = env.R.utils
@@ -121,6 +157,11 @@ def cells():
         out.append(Cell('power[n=%d,%s,iters=%d%s]' % (n, kind, iters, ',hermitian' if herm else ''), 'c19:power',
                         dict(n=n, kind=kind, iters=iters, hermitian=herm), tier=tier, twin=False,
                         bounds='A %dx%d (%s) and the start vector symbolic; %d iteration(s)' % (n, n, kind, iters), **big))
+    for n, kind, iters, herm, tier in [(1, 'complex', 1, False, 'quick'), (1, 'real', 2, False, 'quick'), (1, 'full', 1, False, 'thorough'), (1, 'complex', 2, False, 'thorough'),
+                                       (2, 'real', 1, False, 'thorough'), (2, 'real', 1, True, 'thorough'), (1, 'full', 2, False, 'thorough')]:
+        out.append(Cell('scale_invariance[n=%d,%s,iters=%d%s]' % (n, kind, iters, ',hermitian' if herm else ''), 'c19:scale_invariance',
+                        dict(n=n, kind=kind, iters=iters, hermitian=herm), tier=tier, twin=(n == 1 and iters == 1 and kind == 'complex'), twin_timeout_s=300,
+                        bounds='A %dx%d (%s), scale c > 0 and the start vector symbolic; %d iteration(s); two calls from the same start' % (n, n, kind, iters), **big))
     for fmt in ('complex', 'quaternion'):
         out.append(Cell('nonherm_fastpath[n=1,%s]' % fmt, 'c19:nonherm_hermitian_path', dict(n=1, kind='real', fmt=fmt), twin=False,
                         bounds='1x1 Hermitian input', **big))
